@@ -550,7 +550,7 @@ theorem initKw_eq_nnn (kw : Kw)  (hn : kw.nlyearday = none) (hy : kw.yearday = n
   all_goals (try (by_cases hi : i < -7 ∨ i ≥ 7))
   all_goals (try (by_cases h0 : nv = 0))
   all_goals (try (by_cases h1 : yv = 0))
-  all_goals (try (by_cases h2 : yv > 59))
+  all_goals (try (by_cases h2 : 59 < yv ∧ yv < 366))
   all_goals
     simp only [*, not_true_eq_false, not_false_eq_true, ↓reduceIte, map_ok, map_err, bind_ok, bind_err, true_and,
       and_true, and_self, and_false, false_and, Int.lt_irrefl, gt_iff_lt, if_false_left, if_true_left]
@@ -575,7 +575,7 @@ theorem initKw_eq_nni (kw : Kw) (i : Int) (hn : kw.nlyearday = none) (hy : kw.ye
   all_goals (try (by_cases hi : i < -7 ∨ i ≥ 7))
   all_goals (try (by_cases h0 : nv = 0))
   all_goals (try (by_cases h1 : yv = 0))
-  all_goals (try (by_cases h2 : yv > 59))
+  all_goals (try (by_cases h2 : 59 < yv ∧ yv < 366))
   all_goals
     simp only [*, not_true_eq_false, not_false_eq_true, ↓reduceIte, map_ok, map_err, bind_ok, bind_err, true_and,
       and_true, and_self, and_false, false_and, Int.lt_irrefl, gt_iff_lt, if_false_left, if_true_left]
@@ -600,7 +600,7 @@ theorem initKw_eq_nno (kw : Kw) (w : Int) (n : Option Int) (hn : kw.nlyearday = 
   all_goals (try (by_cases hi : i < -7 ∨ i ≥ 7))
   all_goals (try (by_cases h0 : nv = 0))
   all_goals (try (by_cases h1 : yv = 0))
-  all_goals (try (by_cases h2 : yv > 59))
+  all_goals (try (by_cases h2 : 59 < yv ∧ yv < 366))
   all_goals
     simp only [*, not_true_eq_false, not_false_eq_true, ↓reduceIte, map_ok, map_err, bind_ok, bind_err, true_and,
       and_true, and_self, and_false, false_and, Int.lt_irrefl, gt_iff_lt, if_false_left, if_true_left]
@@ -625,7 +625,7 @@ theorem initKw_eq_nyn (kw : Kw) (yv : Int) (hn : kw.nlyearday = none) (hy : kw.y
   all_goals (try (by_cases hi : i < -7 ∨ i ≥ 7))
   all_goals (try (by_cases h0 : nv = 0))
   all_goals (try (by_cases h1 : yv = 0))
-  all_goals (try (by_cases h2 : yv > 59))
+  all_goals (try (by_cases h2 : 59 < yv ∧ yv < 366))
   all_goals
     simp only [*, not_true_eq_false, not_false_eq_true, ↓reduceIte, map_ok, map_err, bind_ok, bind_err, true_and,
       and_true, and_self, and_false, false_and, Int.lt_irrefl, gt_iff_lt, if_false_left, if_true_left]
@@ -650,7 +650,7 @@ theorem initKw_eq_nyi (kw : Kw) (yv : Int) (i : Int) (hn : kw.nlyearday = none) 
   all_goals (try (by_cases hi : i < -7 ∨ i ≥ 7))
   all_goals (try (by_cases h0 : nv = 0))
   all_goals (try (by_cases h1 : yv = 0))
-  all_goals (try (by_cases h2 : yv > 59))
+  all_goals (try (by_cases h2 : 59 < yv ∧ yv < 366))
   all_goals
     simp only [*, not_true_eq_false, not_false_eq_true, ↓reduceIte, map_ok, map_err, bind_ok, bind_err, true_and,
       and_true, and_self, and_false, false_and, Int.lt_irrefl, gt_iff_lt, if_false_left, if_true_left]
@@ -675,7 +675,7 @@ theorem initKw_eq_nyo (kw : Kw) (yv : Int) (w : Int) (n : Option Int) (hn : kw.n
   all_goals (try (by_cases hi : i < -7 ∨ i ≥ 7))
   all_goals (try (by_cases h0 : nv = 0))
   all_goals (try (by_cases h1 : yv = 0))
-  all_goals (try (by_cases h2 : yv > 59))
+  all_goals (try (by_cases h2 : 59 < yv ∧ yv < 366))
   all_goals
     simp only [*, not_true_eq_false, not_false_eq_true, ↓reduceIte, map_ok, map_err, bind_ok, bind_err, true_and,
       and_true, and_self, and_false, false_and, Int.lt_irrefl, gt_iff_lt, if_false_left, if_true_left]
@@ -700,7 +700,7 @@ theorem initKw_eq_ynn (kw : Kw) (nv : Int) (hn : kw.nlyearday = some nv) (hy : k
   all_goals (try (by_cases hi : i < -7 ∨ i ≥ 7))
   all_goals (try (by_cases h0 : nv = 0))
   all_goals (try (by_cases h1 : yv = 0))
-  all_goals (try (by_cases h2 : yv > 59))
+  all_goals (try (by_cases h2 : 59 < yv ∧ yv < 366))
   all_goals
     simp only [*, not_true_eq_false, not_false_eq_true, ↓reduceIte, map_ok, map_err, bind_ok, bind_err, true_and,
       and_true, and_self, and_false, false_and, Int.lt_irrefl, gt_iff_lt, if_false_left, if_true_left]
@@ -725,7 +725,7 @@ theorem initKw_eq_yni (kw : Kw) (nv : Int) (i : Int) (hn : kw.nlyearday = some n
   all_goals (try (by_cases hi : i < -7 ∨ i ≥ 7))
   all_goals (try (by_cases h0 : nv = 0))
   all_goals (try (by_cases h1 : yv = 0))
-  all_goals (try (by_cases h2 : yv > 59))
+  all_goals (try (by_cases h2 : 59 < yv ∧ yv < 366))
   all_goals
     simp only [*, not_true_eq_false, not_false_eq_true, ↓reduceIte, map_ok, map_err, bind_ok, bind_err, true_and,
       and_true, and_self, and_false, false_and, Int.lt_irrefl, gt_iff_lt, if_false_left, if_true_left]
@@ -750,7 +750,7 @@ theorem initKw_eq_yno (kw : Kw) (nv : Int) (w : Int) (n : Option Int) (hn : kw.n
   all_goals (try (by_cases hi : i < -7 ∨ i ≥ 7))
   all_goals (try (by_cases h0 : nv = 0))
   all_goals (try (by_cases h1 : yv = 0))
-  all_goals (try (by_cases h2 : yv > 59))
+  all_goals (try (by_cases h2 : 59 < yv ∧ yv < 366))
   all_goals
     simp only [*, not_true_eq_false, not_false_eq_true, ↓reduceIte, map_ok, map_err, bind_ok, bind_err, true_and,
       and_true, and_self, and_false, false_and, Int.lt_irrefl, gt_iff_lt, if_false_left, if_true_left]
@@ -775,7 +775,7 @@ theorem initKw_eq_yyn (kw : Kw) (nv : Int) (yv : Int) (hn : kw.nlyearday = some 
   all_goals (try (by_cases hi : i < -7 ∨ i ≥ 7))
   all_goals (try (by_cases h0 : nv = 0))
   all_goals (try (by_cases h1 : yv = 0))
-  all_goals (try (by_cases h2 : yv > 59))
+  all_goals (try (by_cases h2 : 59 < yv ∧ yv < 366))
   all_goals
     simp only [*, not_true_eq_false, not_false_eq_true, ↓reduceIte, map_ok, map_err, bind_ok, bind_err, true_and,
       and_true, and_self, and_false, false_and, Int.lt_irrefl, gt_iff_lt, if_false_left, if_true_left]
@@ -801,7 +801,7 @@ theorem initKw_eq_yyi (kw : Kw) (nv : Int) (yv : Int) (i : Int) (hn : kw.nlyeard
   all_goals (try (by_cases hi : i < -7 ∨ i ≥ 7))
   all_goals (try (by_cases h0 : nv = 0))
   all_goals (try (by_cases h1 : yv = 0))
-  all_goals (try (by_cases h2 : yv > 59))
+  all_goals (try (by_cases h2 : 59 < yv ∧ yv < 366))
   all_goals
     simp only [*, not_true_eq_false, not_false_eq_true, ↓reduceIte, map_ok, map_err, bind_ok, bind_err, true_and,
       and_true, and_self, and_false, false_and, Int.lt_irrefl, gt_iff_lt, if_false_left, if_true_left]
@@ -827,7 +827,7 @@ theorem initKw_eq_yyo (kw : Kw) (nv : Int) (yv : Int) (w : Int) (n : Option Int)
   all_goals (try (by_cases hi : i < -7 ∨ i ≥ 7))
   all_goals (try (by_cases h0 : nv = 0))
   all_goals (try (by_cases h1 : yv = 0))
-  all_goals (try (by_cases h2 : yv > 59))
+  all_goals (try (by_cases h2 : 59 < yv ∧ yv < 366))
   all_goals
     simp only [*, not_true_eq_false, not_false_eq_true, ↓reduceIte, map_ok, map_err, bind_ok, bind_err, true_and,
       and_true, and_self, and_false, false_and, Int.lt_irrefl, gt_iff_lt, if_false_left, if_true_left]
